@@ -561,7 +561,23 @@ func (x *run) checkC12(failing map[int]bool) *Failure {
 						viaWatcher = true
 					}
 				}
-				if !viaWatcher {
+				if viaWatcher {
+					continue
+				}
+				// reported by another Close call that was running at the same time and covers the instance
+				// too (an ancestor's Close, the provider's): the failure is reported, just not by this call
+				reportedElsewhere := false
+				for _, c := range e.CloseSeqs() {
+					for _, og := range groups {
+						if og == g || og.errs == 0 || c <= og.from || c >= og.to {
+							continue
+						}
+						if og.kind == "pclose" || x.subtreeOf(og.scope)[e.ScopeTag] {
+							reportedElsewhere = true
+						}
+					}
+				}
+				if !reportedElsewhere {
 					anyFailOwn = true
 				}
 			}
